@@ -14,6 +14,27 @@ if os.environ.get('KYUPY_REPO'):   # development aid: run against another checko
     sys.path.insert(0, os.path.join(os.environ['KYUPY_REPO'], 'src'))
 
 
+def asthash(path):
+    """hash of a Python source file that ignores comments, blank lines and layout"""
+    import ast, hashlib
+    try:
+        return hashlib.sha256(ast.dump(ast.parse(open(path).read())).encode()).hexdigest()[:16]
+    except Exception as ex:
+        return 'unparsable:' + type(ex).__name__
+
+
+def drifted(pid):
+    """files this property is anchored in (properties.jsonl) whose AST differs from the record tools/anchors.json"""
+    here = os.path.dirname(os.path.abspath(__file__))
+    try:
+        base = json.load(open(os.path.join(here, 'tools', 'anchors.json')))
+        files = next(json.loads(l)['anchors']['files'] for l in open(os.path.join(here, 'properties.jsonl')) if json.loads(l)['id'] == pid)
+    except Exception:
+        return []
+    repo = os.environ.get('KYUPY_REPO') or '/repo'
+    return [f for f in sorted(set(files) | {'src/kyupy/__init__.py'}) if asthash(os.path.join(repo, f)) != base.get(f)]
+
+
 def main():
     ap = argparse.ArgumentParser()
     ap.add_argument('pid')
@@ -29,6 +50,14 @@ def main():
     ck = common.Check(a.pid, a.tier, seed)
     try:
         rc = mod.run(ck)
+        drift = drifted(a.pid) if rc == 0 and a.tier == 'quick' and not os.environ.get('VERIF_NO_DRIFT') else []
+        if drift:
+            # the implementation of this property differs from the recorded tree and the run found nothing: look again with
+            # other seeds before reporting that the property held (never a violation by itself)
+            for extra in (1, 2, 3):
+                print(f'[{a.pid}] source drift in {", ".join(drift)}: additional run {extra}/3 with another seed')
+                rc = mod.run(common.Check(a.pid, a.tier, seed + 7919 * extra))
+                if rc != 0: break
     except Exception:
         traceback.print_exc()
         print(f'[{a.pid}] harness error (exit 2)')
